@@ -513,6 +513,7 @@ var apiKinds = []struct {
 	{"KToNaluSample", []string{"avc.ConvertByteStreamToNaluSample"}},
 	{"KSetBoxDecoder", []string{"mp4.SetBoxDecoder"}},
 	{"KRemoveBoxDecoder", []string{"mp4.RemoveBoxDecoder"}},
+	{"KTouch", []string{"mp4.FtypBox.AddCompatibleBrands", "mp4.StypBox.AddCompatibleBrands", "mp4.MdatBox.AddSampleData"}},
 }
 
 type varName struct{ pkg, name string }
